@@ -162,6 +162,15 @@ class RecordModel(Model):
     def isinstance_(self, ex, rec, c):
         if c.model is self.class_model:
             return z3.BoolVal(True)
+        want = (getattr(c.model, "relpath", None), getattr(c.model, "clsname", None)) if c.model is not None else \
+            ((c.py.__module__.replace(".", "/") + ".py", c.py.__name__) if getattr(c, "py", None) is not None and hasattr(c.py, "__module__") else None)
+
+        def chain(m):
+            yield (m.relpath, m.clsname)
+            for b in m.bases:
+                yield from chain(b)
+        if want is not None and want in set(chain(self)):
+            return z3.BoolVal(True)
         if c.py is object:
             return z3.BoolVal(True)
         return z3.BoolVal(False)
